@@ -50,11 +50,15 @@ def isGenerated (s : Text) : Bool := isPrefix (cl!"%lf3:") s
     than `a d o f ~` (the directives the generator uses) or ends the template. -/
 def formatDirectives : Text → Option Nat
   | [] => some 0
-  | '~' :: '~' :: r => formatDirectives r
-  | '~' :: c :: r =>
-    if c = 'a' || c = 'd' || c = 'o' || c = 'f' then (formatDirectives r).map (· + 1) else none
-  | ['~'] => none
-  | _ :: r => formatDirectives r
+  | c :: r =>
+    if c = '~' then
+      match r with
+      | [] => none
+      | d :: r' =>
+        if d = '~' then formatDirectives r'
+        else if d = 'a' || d = 'd' || d = 'o' || d = 'f' then (formatDirectives r').map (· + 1)
+        else none
+    else formatDirectives r
 
 /-- Every `(format #f "tmpl" args…)` has exactly as many arguments as directives. -/
 def formatCallsOk (prog : SExp) : Bool :=
@@ -118,6 +122,23 @@ def scopeProblem (p : Program) : Option String :=
   | none =>
     let used := ((symbols p.body) ++ (symbols p.init) ++ (symbols p.fini)).filter isGenerated
     if used.all fun u => names.any (· = u) then none else some "body-uses-unbound-name"
+
+end Scheme
+end FV
+
+namespace FV
+namespace Scheme
+
+/-- What Guile's `format` prints for a template used WITHOUT arguments: `~~` prints a tilde, any
+    other `~` would need an argument (or is an unknown directive): `none`. -/
+def formatPlain : Text → Option Text
+  | [] => some []
+  | c :: r =>
+    if c = '~' then
+      match r with
+      | d :: r' => if d = '~' then (formatPlain r').map ('~' :: ·) else none
+      | [] => none
+    else (formatPlain r).map (c :: ·)
 
 end Scheme
 end FV
